@@ -20,7 +20,7 @@ func runC08(r *vf.Run) {
 		"after every execution the exported fields (expression tree, group-by list) are compared with a deep copy taken before the first execution; " +
 		"distinct_nontrivial = distinct (dataset pair, query, history) triples with >= 2 executions")
 	r.Assume("a Query value is not shared between goroutines (C04 covers concurrency)")
-	n := r.Pick(60, 400)
+	n := r.Pick(60, 1500)
 	var ids []string
 	for i := 0; i < n; i++ {
 		ids = append(ids, fmt.Sprintf("pair%03d", i))
